@@ -11,7 +11,8 @@
         every enum inside in variant `sel mod #variants`, `sel = 0..3`, against the reference placement:
         `ok <types> <runs>` | `mismatch <decl> <sel> drop=<addr:id,…> leaves=<addr:id,…> clone=<src>dst:id,…>` | `bad-dump`
    `c03 glue-shallow <nums…>` → per declared type the events of its own drop function, one
-        group per variant (nested generated functions not inlined): `D<decl> v<k>: off/kind …` -/
+        group per variant (nested generated functions not inlined): `D<decl> v<k>: off/kind …`, and of
+        its clone function: `C<decl> v<k>: v<src>>r<dst>/kind | v<src>>r<dst>#<memcpy size> …` -/
 import Driver.Util
 import RotoV.Model.Mir
 import RotoV.Model.Glue
@@ -316,13 +317,32 @@ def glueShallow (ds : Array GTy) : String :=
     " ".intercalate ((go fs b0 []).map fun
       | .drop a k => s!"{a}/{if k = 0 then "r" else "g"}"
       | _ => "stuck")
+  -- the clone function: source addresses from 0 (`val`), destination from `R` (`$return`)
+  let R := 1000000
+  let addr (a : Nat) : String := if a ≥ R then s!"r{a - R}" else s!"v{a}"
+  let cfields (steps : List Step) (bound : Bool) (fs : List GTy) (b0 : Builder) : String :=
+    let rec cgo (fs : List GTy) (b : Builder) (acc : List Ev) : List Ev :=
+      match fs with
+      | [] => acc
+      | t :: ts =>
+        let s := runSteps (layoutOf t) (needsDrop t) 0 R (fun _ => [.stuck])
+          (fun p q => if needsDrop t then
+              (match t with | .leaf _ _ _ _ => [.clone p q 0] | _ => [.clone p q 1])
+            else [.copy p q (layoutOf t).size])
+          steps (Iter.start b (layoutOf t) bound)
+        cgo ts s.b (acc ++ s.out)
+    " ".intercalate ((cgo fs b0 []).map fun
+      | .clone p q k => s!"{addr p}>{addr q}/{if k = 0 then "r" else "g"}"
+      | .copy p q n => s!"{addr p}>{addr q}#{n}"
+      | _ => "stuck")
   " ; ".intercalate ((List.range ds.size).map fun i =>
     match ds[i]! with
-    | .record fs => s!"D{i} v0: {fields prog.dropRecord false (gtysToList fs) Builder.new}"
+    | .record fs =>
+      s!"D{i} v0: {fields prog.dropRecord false (gtysToList fs) Builder.new} ; C{i} v0: {cfields prog.cloneRecord false (gtysToList fs) Builder.new}"
     | .enum vs =>
       let vl := gvarsToList vs
       " ; ".intercalate ((List.range vl.length).map fun k =>
-        s!"D{i} v{k}: {fields prog.dropEnum true (gtysToList (vl.getD k .nil)) (runPre prog.dropEnumPre Builder.new)}")
+        s!"D{i} v{k}: {fields prog.dropEnum true (gtysToList (vl.getD k .nil)) (runPre prog.dropEnumPre Builder.new)} ; C{i} v{k}: {cfields prog.cloneEnum true (gtysToList (vl.getD k .nil)) (runPre prog.cloneEnumPre Builder.new)}")
     | _ => s!"D{i} leaf")
 
 def handle (args : List String) : String :=
